@@ -10,6 +10,8 @@ EXPLANATION = ('Contract form of history independence: every read contract takes
                'ordinal override; (c) preload: every loader / read contract is verified in file and preload mode against the same spec result (C02), preload issues no '
                'backend read (C07); (d) lru caches: modelled as transparent (AX-LRU) -- justified by the contracts of the cached functions: their results are spec functions of '
                'their arguments and frozen state, so a cache hit returns what a fresh call returns, for every cache size.')
+# every read returns its spec value from ANY state satisfying the reader invariant (C02 set); the contracts registered for C15 add the cache / preload / history states
+INCLUDES = ('C02',)
 ASSUMPTIONS = [
     'AX-LRU: functools.lru_cache(f) behaves as f when f is a function of its arguments (which the contracts of the cached loader functions establish); in-place mutation of a '
     'cached array by a caller is not tracked by the engine (reviewed: callers slice / copy, none assigns into a returned chunk)',
